@@ -520,3 +520,76 @@ class WindowMonitor:
     def finish(self, w, res):
         res.info['window_traffic'] = self.traffic()
         res.info['window_monitor'] = self
+
+
+# ---------------------------------------------------------------------------- C18
+
+class OpeningMonitor:
+    """Records every value opened from inside the library (Runtime.output called by mpyc code, not by the
+    program) and every PRSS evaluation with its unique common input (uci)."""
+
+    name = 'openings'
+
+    def __init__(self):
+        self.patch = Patch()
+        self.openings = []      # (pid, site, [ints])
+        self.prss = []          # (pid, kind, uci, caller)
+
+    def attach(self, w, case):
+        import sys as _sys
+        mon = self
+        orig_output = mrt.Runtime.output
+
+        def output(self, x, receivers=None, threshold=None, raw=False):
+            fr = _sys._getframe(1)
+            mod = fr.f_globals.get('__name__', '')
+            fut = orig_output(self, x, receivers, threshold, raw)
+            if mod.startswith('mpyc.') and self.pid == 0:
+                site = f'{fr.f_code.co_name}:{fr.f_lineno}'
+
+                def done(f, site=site):
+                    if f.cancelled() or f.exception() is not None:
+                        return
+                    r = f.result()
+                    vals = []
+                    for v in (r if isinstance(r, list) else [r]):
+                        if isinstance(v, finfields.FiniteFieldElement) and isinstance(v.value, int):
+                            vals.append((int(v.value), int(type(v).order)))
+                    if vals:
+                        mon.openings.append((site, vals))
+                if isinstance(fut, asyncio.Future):
+                    fut.add_done_callback(done)
+            return fut
+        self.patch.set(mrt.Runtime, 'output', output)
+
+        def wrap_prss(name):
+            orig = getattr(thresha, name)
+
+            def f(field, m, i, prfs, uci, n):
+                fr = _sys._getframe(1)
+                mon.prss.append((i, name, bytes(uci), fr.f_code.co_name, id(prfs)))
+                return orig(field, m, i, prfs, uci, n)
+            return f
+        for nm in ('pseudorandom_share', 'pseudorandom_share_zero'):
+            self.patch.set(thresha, nm, wrap_prss(nm))
+
+    def detach(self):
+        self.patch.restore()
+
+    def finish(self, w, res):
+        # fresh masks: a uci is used for one PRSS evaluation only -- except where the protocol needs the same
+        # random value in two fields (_convert) or a value and its zero-sharing mask (documented pairs)
+        seen = {}
+        for pid, kind, uci, caller, prfs_id in self.prss:
+            key = (pid, uci)
+            prev = seen.get(key)
+            if prev is not None and not (caller == '_convert' and prev[1] == '_convert'):
+                res.violations.append(('invariant:prss-uci-reuse',
+                                       f'party {pid}: unique common input {uci.hex()} used for two PRSS evaluations '
+                                       f'({prev[0]} in {prev[1]}, {kind} in {caller}): masks are not fresh'))
+                break
+            seen[key] = (kind, caller)
+        pr = res.info.setdefault('probes', {})
+        pr['prss_evaluations'] = len(self.prss)
+        pr['internal_openings'] = len(self.openings)
+        res.info['openings'] = self.openings
